@@ -64,6 +64,7 @@ def coq_build(res, pid=None, ties=()):
     the model + extraction, the tie lemmas about the regenerated definitions, the property file.
     Building per target keeps a broken obligation of one property from raising alarms for others."""
     translate(res)
+    os.makedirs(os.path.join(COQ, "extracted"), exist_ok=True)
     mk = os.path.join(COQ, "Makefile")
     if not os.path.exists(mk) or os.path.getmtime(os.path.join(COQ, "_CoqProject")) > os.path.getmtime(mk):
         rc, out = sh("coq_makefile -f _CoqProject -o Makefile", cwd=COQ, timeout=120)
